@@ -67,8 +67,9 @@ func H_Bytes_Equal() {
 	}
 	ta, oka := parseJSON(a)
 	tb, okb := parseJSON(b)
-	if oka && okb {
-		// short well-formed texts: the structural verdict is known as well
+	if oka && okb && validUTF8(a) && validUTF8(b) {
+		// short well-formed texts in valid UTF-8: the structural verdict is known as well
+		// (texts that are not UTF-8 are accepted by the scanner but their strings have no defined value)
 		want := refEqual(ta, tb)
 		if !numbersMayDiffer(ta, tb) {
 			vx.Assert(r1 == want, "C06/short-texts-structural")
@@ -264,7 +265,6 @@ func H_Bytes_ApplyDoc() {
 	}
 	vx.Reach("bytes/applydoc/wellformed")
 }
-
 
 // H_Bytes_InString: k unconstrained bytes INSIDE a string literal (member value, member name, pointer, operation
 // value) of otherwise well-formed arguments, handed to every entry point: never a panic. Reaches the string
